@@ -113,3 +113,12 @@ Definition c05es_entry : entry := fun inp =>
       end
   | _ => [(-1)%Z]
   end.
+
+(** a CALL whose payload does not decode into the action's request type (wrong JSON type) is answered with the
+    formation / format violation code of the connection's dialect: [v2] -> [4; code] *)
+Definition format_code (v2 : bool) : string := if v2 then "FormatViolation" else "FormationViolation".
+Definition c05t_entry : entry := fun inp =>
+  match inp with
+  | v2 :: _ => 4%Z :: put_lp (z_of_str (format_code (z_bool v2)))
+  | _ => [(-1)%Z]
+  end.
